@@ -15,6 +15,7 @@ package main
 import (
 	"encoding/json"
 	"fmt"
+	"os"
 	"sort"
 	"strings"
 	"sync"
@@ -504,6 +505,9 @@ func c06Gen(ctx *core.Ctx) {
 	}
 	for i := 0; i < scripts; i++ {
 		c06GenScript(ctx, r.Fork(), i%4)
+	}
+	if os.Getenv("C06_NOSTRESS") != "" { // development aid
+		return
 	}
 	// stress after the scripts (the stack scans of the script runner look at every goroutine)
 	total := 200_000
